@@ -25,7 +25,8 @@ RULE = ("random spec-level alignment records (0..4 references, refID -1, read na
         "kinds with lengths up to 2^28-1 (occasionally >= 16384 ops), sequence length 0..40 odd and even over the 16-letter code "
         "(occasionally > 65535), qualities 0..93, optional tag bytes, random BGZF block sizes) encoded by an independent encoder; "
         "x whole read / every (small files) or sampled chunk size >= largest record / interval via BamIntervalBuffer and "
-        "alignment_to_interval / {whole, filtered, reordered, chunk-stream} write back. Non-trivial = >= 2 records with "
+        "alignment_to_interval / {whole, every mask of five, permutations and repetitions of equal-sized records, chunk-stream} write "
+        "back / eager reading (lazy=False) / count_entries / write of a chunk with replaced values (must be refused). Non-trivial = >= 2 records with "
         "different name-length / CIGAR-count / sequence-parity shapes")
 EXHAUSTIVE = {"quick": False, "thorough": False}
 MODEL_OPS = {"decode", "chunked", "interval", "write", "count"}
@@ -51,9 +52,10 @@ MANIFEST = {
             "impl vs Lean model vs Lean spec vs oracle.",
     "note": "gzip/BGZF decompression, NumPy indexing and npstructures ragged slicing are modelled as list operations and exercised "
             "by the correspondence; int32 wrap-around outside the validity bounds (pos + reference length >= 2^31, l_seq >= 2^31) "
-            "is outside the modelled domain. Measured (16 cores, seeds 0-3): quick 19-31 s / ~3.4k cases, thorough 3-5 min / ~59k cases "
+            "is outside the modelled domain. Measured (16 cores, seeds 0-3): quick 15-30 s / ~3.7k cases, thorough 3-5 min / ~59k cases "
             "(every chunk size from the largest record to file size + 2 for the small files). Defects found and fixed in /repo: "
-            "ebaee36 (unmapped -> last reference name; zero-reference BAM unreadable), d080e2f (uint16 wrap of n_cigar_op*4).",
+            "ebaee36 (unmapped -> last reference name; zero-reference BAM unreadable), d080e2f (uint16 wrap of n_cigar_op*4), "
+            "9afb68d (count_entries on BAM raised NameError). 47 audited theorems incl. a complete spec-level decoder inverting the encoder.",
     "technique": "Lean 4 proof (induction over the record list) over an executable decoder model + spec-level encoder; tables regenerated "
                  "from source (decide); differential correspondence with the implementation on independently encoded files",
     "design": "§6 C16",
